@@ -41,6 +41,18 @@ fn real() -> bool {
     REAL.with(|r| r.get())
 }
 
+// AbsDiffEq / RelativeEq of corgi::array::Array come from the `approx` crate, a dependency of corgi
+mod approx_shim {
+    use corgi::array::Array;
+    use corgi::numbers::Float;
+    pub fn abs_diff(a: &Array, b: &Array, eps: Float) -> bool {
+        approx::AbsDiffEq::abs_diff_eq(a, b, eps)
+    }
+    pub fn relative(a: &Array, b: &Array, eps: Float, rel: Float) -> bool {
+        approx::RelativeEq::relative_eq(a, b, eps, rel)
+    }
+}
+
 // ---------- scalar / tensor encoding
 fn dy_of(v: f64) -> Option<(i64, i64)> {
     if v == 0.0 {
@@ -286,6 +298,16 @@ fn observe(a: &Array, h: i64, with_grads: bool) -> Value {
     }
     let g = a.gradient();
     let mut o = json!({"h": h, "x": digest(a), "t": t, "g": g.is_some()});
+    // the consumer counter as printed by the public Debug implementation ("consumers: Cell { value: N }");
+    // absent when the format does not have it (then nothing is judged from it)
+    let dbg = format!("{:?}", a);
+    if let Some(p) = dbg.find("consumers: Cell { value: ") {
+        let rest = &dbg[p + "consumers: Cell { value: ".len()..];
+        let digits: String = rest.chars().take_while(|c| c.is_ascii_digit()).collect();
+        if let Ok(n) = digits.parse::<i64>() {
+            o["cc"] = json!(n.min(1_000_000));
+        }
+    }
     if with_grads {
         if let Some(gr) = &*g {
             o["gt"] = tensor_out(gr);
@@ -425,6 +447,16 @@ fn run_step(st: &mut State, step: &Value) -> Value {
         }
         "eq" => {
             let r = st.with_args(&args, |xs| guarded!(xs[0] == xs[1]));
+            if let Some(v) = r {
+                ev.insert("ret".into(), json!(v));
+            }
+        }
+        "abs_diff_eq" | "relative_eq" => {
+            use approx_shim::{abs_diff, relative};
+            let eps = scalar_in(&step["eps"]);
+            let r = st.with_args(&args, |xs| {
+                guarded!(if op == "abs_diff_eq" { abs_diff(xs[0], xs[1], eps) } else { relative(xs[0], xs[1], eps, scalar_in(&step["rel"])) })
+            });
             if let Some(v) = r {
                 ev.insert("ret".into(), json!(v));
             }
